@@ -372,7 +372,7 @@ Proof.
     apply map_snd_app in Hm as (t1 & ts' & -> & Hm1 & Hm).
     apply map_snd_cons in Hm1 as (sp1 & tx & -> & Hmx).
     destruct (bseq_next ts' items spE rest Hm) as (y & r & Ey & Hy).
-    cbn [app] in Hv. rewrite <- !app_assoc in Hv. rewrite Ey in Hv.
+    cbn [app] in Hv. rewrite <- !app_assoc in Hv. unfold token in *; rewrite Ey in Hv.
     destruct (bseq_item x Hx p sp1 tx y r st s k e tg kp Hwx Hv Hmx Hy Hbx Hn) as (p1 & R1 & V1).
     destruct (IH p1 ts' spE rest SBlockSequenceEntry s k _ tg kp Hw
                  ltac:(rewrite V1; f_equal; symmetry; exact Ey) Hm Hb (env_after_pos _ _ Hn)) as (p2 & R2 & V2).
@@ -492,7 +492,7 @@ Proof.
     apply map_snd_app in Hm as (t1 & ts' & -> & Hm1 & Hm).
     apply map_snd_cons in Hm1 as (sp1 & tx & -> & Hmx).
     destruct (iseq_next ts' items x rest Hm Hk) as (y & r & Ey & Hy).
-    cbn [app] in Hv. rewrite <- !app_assoc in Hv. rewrite Ey in Hv.
+    cbn [app] in Hv. rewrite <- !app_assoc in Hv. unfold token in *; rewrite Ey in Hv.
     destruct (iseq_item x0 Hx p sp1 tx y r st s k e tg kp Hwx Hv Hmx Hy Hbx Hn) as (p1 & R1 & V1).
     destruct (IH p1 ts' x rest SIndentlessSequenceEntry s k _ tg kp Hw
                  ltac:(rewrite V1; f_equal; symmetry; exact Ey) Hm Hk Hb (env_after_pos _ _ Hn)) as (p2 & R2 & V2).
@@ -664,7 +664,7 @@ Proof.
     apply map_snd_app in Hm1 as (tk & t3 & -> & Hmk & Hm1).
     apply map_snd_app in Hm1 as (tvv & tv & -> & Hmvv & Hmv).
     destruct (bm_next ts' ents spE rest Hm Hw) as (yv & rv & Ey & Hyv & Hyv2).
-    rewrite <- !app_assoc in Hv. rewrite Ey in Hv.
+    rewrite <- !app_assoc in Hv. unfold token in *; rewrite Ey in Hv.
     cbn [flat_map ent_pre]. rewrite !number_app, <- !app_assoc, !env_after_app.
     assert (Hval : forall p1 (e1 : aenv), (0 < ae_next e1)%N -> bound tg e1 (pre_events vn) = true ->
               bound tg (env_after e1 (pre_events vn)) (flat_map (ent_pre pre_events) ents) = true ->
@@ -866,4 +866,288 @@ Proof.
     + apply run_steps. rewrite (sm_fsem_value p2 (view_state _ _ _ _ _ _ _ _ V2)). exact R3.
     + econstructor; [|constructor].
       rewrite (sm_fsem_end p3 m (view_state _ _ _ _ _ _ _ _ V3)). reflexivity.
+Qed.
+
+Definition FsSpec (en : ltree + (ltree * (bool * ltree))) : Prop :=
+  match en with inl n => NodeSpec n | inr (kn, (_, vn)) => NodeSpec kn /\ NodeSpec vn end.
+
+Lemma fs_next (ts ttr : list token) ents trail spE rest :
+  map snd ts = flat_map (fun en => TFlowEntry :: fsent_toks tokens_of en) ents ->
+  map snd ttr = flag trail TFlowEntry ->
+  exists y r, ts ++ ttr ++ (spE, TFlowSequenceEnd) :: rest = y :: r /\ fen_fse (snd y) = true.
+Proof.
+  destruct ents as [|en ents]; cbn [flat_map]; intros H Ht.
+  - apply map_snd_nil in H as ->. destruct trail; cbn in Ht.
+    + apply map_snd_cons in Ht as (sp & t2 & -> & _). cbn. eauto.
+    + apply map_snd_nil in Ht as ->. cbn. eauto.
+  - cbn [app] in H. apply map_snd_cons in H as (sp & t2 & -> & _). cbn. eauto.
+Qed.
+
+Lemma fs_entries ents : Forall FsSpec ents ->
+  forall p ts ttr trail spE rest st s k e tg kp,
+  forallb (fsent_wf (wf false false)) ents = true ->
+  view p = mkv (ts ++ ttr ++ (spE, TFlowSequenceEnd) :: rest) st (s :: k) (ae_map e) (ae_next e) tg kp ->
+  map snd ts = flat_map (fun en => TFlowEntry :: fsent_toks tokens_of en) ents ->
+  map snd ttr = flag trail TFlowEntry ->
+  bound tg e (flat_map (fsent_pre pre_events) ents) = true -> (0 < ae_next e)%N ->
+  exists p2, run (flow_sequence_entry p false) (number tg e (flat_map (fsent_pre pre_events) ents) ++ [ESequenceEnd]) p2 /\
+     view p2 = mkv rest s k (ae_map (env_after e (flat_map (fsent_pre pre_events) ents)))
+                   (ae_next (env_after e (flat_map (fsent_pre pre_events) ents))) tg kp.
+Proof.
+  induction 1 as [|en ents Hx HF IH]; intros p ts ttr trail spE rest st s k e tg kp Hw Hv Hm Ht Hb Hn.
+  - cbn in Hm. apply map_snd_nil in Hm as ->. cbn [app] in Hv. destruct trail; cbn in Ht.
+    + apply map_snd_cons in Ht as (spF & t2 & -> & Ht). apply map_snd_nil in Ht as ->. cbn [app] in Hv.
+      eexists. split.
+      * cbn [flat_map number app]. eapply run_one. unfold flow_sequence_entry. vpeek Hv. cbn. reflexivity.
+      * reflexivity.
+    + apply map_snd_nil in Ht as ->. cbn [app] in Hv.
+      eexists. split.
+      * cbn [flat_map number app]. eapply run_one. unfold flow_sequence_entry. vpeek Hv. cbn. reflexivity.
+      * reflexivity.
+  - cbn [flat_map] in Hm, Hb. cbn [forallb] in Hw. apply andb_prop in Hw as [Hwx Hw].
+    rewrite bound_app in Hb. apply andb_prop in Hb as [Hbx Hb].
+    apply map_snd_app in Hm as (t1 & ts' & -> & Hm1 & Hm).
+    apply map_snd_cons in Hm1 as (spF & te & -> & Hme).
+    destruct (fs_next ts' ttr ents trail spE rest Hm Ht) as (y & r & Ey & Hy).
+    cbn [app] in Hv. rewrite <- !app_assoc in Hv. unfold token in *; rewrite Ey in Hv.
+    destruct (fs_entry en Hx (mkp (te ++ y :: r) None st (s :: k) (ae_map e) (ae_next e) tg kp) te y r st s k e tg kp
+                Hwx eq_refl Hme Hy Hbx Hn) as (p1 & R1 & V1).
+    destruct (IH p1 ts' ttr trail spE rest SFlowSequenceEntry s k _ tg kp Hw
+                 ltac:(rewrite V1; f_equal; symmetry; exact Ey) Hm Ht Hb (env_after_pos _ _ Hn)) as (p2 & R2 & V2).
+    exists p2. cbn [flat_map]. rewrite number_app, <- app_assoc, env_after_app. split; [|exact V2].
+    eapply run_eq; [exact (fse_next _ _ _ _ _ _ _ _ _ Hv)|].
+    eapply run_app; [exact R1|]. apply run_steps.
+    rewrite (sm_flow_sequence_entry p1 (view_state _ _ _ _ _ _ _ _ V1)). exact R2.
+Qed.
+
+Lemma flat_map_sep {A} (f : A -> list tok) l :
+  flat_map (fun y => TFlowEntry :: y) (map f l) = flat_map (fun en => TFlowEntry :: f en) l.
+Proof. induction l as [|x l IH]; cbn; [reflexivity|]. rewrite IH. reflexivity. Qed.
+
+Lemma fs_first en (te : list token) : fsent_wf (wf false false) en = true -> map snd te = fsent_toks tokens_of en ->
+  exists sp0 y0 te', te = (sp0, y0) :: te' /\ y0 <> TFlowSequenceEnd.
+Proof.
+  destruct en as [nd | [kn [vt vn]]]; cbn [fsent_wf fsent_toks]; intros Hw Hm.
+  - destruct (first_tok_spanned _ _ _ _ Hw Hm) as (sp0 & y0 & te' & -> & [S0 | [? _]]); [|discriminate].
+    do 3 eexists. split; [reflexivity|]. intros ->. discriminate.
+  - apply map_snd_cons in Hm as (sp0 & te' & -> & _). do 3 eexists. split; [reflexivity|]. discriminate.
+Qed.
+
+Lemma node_fseq pr ents trail : Forall FsSpec ents -> NodeSpec (LFSeq pr ents trail).
+Proof.
+  intros HF b i p ts x rest st0 s k e tg kp Hw Hv Hm Hf _ Hb Hn. open_env e a n.
+  cbn [wf] in Hw. apply andb_prop in Hw as [Hw Htr].
+  cbn [tokens_of] in Hm.
+  apply map_snd_app in Hm as (tp & t2 & -> & Hmp & Hm).
+  apply map_snd_cons in Hm as (spS & t3 & -> & Hm).
+  apply map_snd_app in Hm as (tb & t4 & -> & Hmb & Hm).
+  apply map_snd_app in Hm as (ttr & t5 & -> & Hmt & Hm).
+  apply map_snd_cons in Hm as (spE & t6 & -> & Hm). apply map_snd_nil in Hm as ->.
+  rewrite <- !app_assoc in Hv. cbn [app] in Hv. rewrite <- !app_assoc in Hv. cbn [app] in Hv.
+  cbn [pre_events] in Hb |- *. apply bound_coll in Hb as [Hb1 Hb]. cbn [bound1] in Hb1.
+  destruct (parse_node_props pr p _ _ _ _ _ _ _ _ _ b i Hv Hmp eq_refl Hb1) as (q & Eq & Vq).
+  unfold node_content in Eq. vpeek_in Vq Eq. cbn in Eq.
+  set (e1 := snd (reg (pr_anchor pr) (penv a n))) in *.
+  assert (Hn1 : (0 < ae_next e1)%N) by (apply reg_next_pos; exact Hn).
+  rewrite number_coll, env_after_coll. cbn [env_step number1].
+  destruct ents as [|en ents].
+  - (* [] *)
+    cbn [map fsep] in Hmb. apply map_snd_nil in Hmb as ->. cbn [negb nonempty orb] in Htr.
+    destruct trail; [discriminate|]. cbn in Hmt. apply map_snd_nil in Hmt as ->. cbn [app] in Eq.
+    eexists. split.
+    + eapply run_cons; [exact Eq|]. cbn [flat_map number app]. econstructor; [|constructor]. reflexivity.
+    + reflexivity.
+  - cbn [map fsep] in Hmb. rewrite flat_map_sep in Hmb.
+    apply map_snd_app in Hmb as (te & ts' & -> & Hme & Hms).
+    cbn [forallb] in Hw. apply andb_prop in Hw as [Hwx Hw].
+    cbn [flat_map] in Hb |- *. rewrite bound_app in Hb. apply andb_prop in Hb as [Hbx Hb].
+    inversion HF as [|? ? Hx HF']; subst.
+    destruct (fs_first en te Hwx Hme) as (sp0 & y0 & te' & -> & Hy0).
+    destruct (fs_next ts' ttr ents trail spE (x :: rest) Hms Hmt) as (y & r & Ey & Hy).
+    rewrite <- !app_assoc in Eq. cbn [app] in Eq. unfold token in *; rewrite Ey in Eq.
+    destruct (fs_entry en Hx (mkp (te' ++ y :: r) (Some (sp0, y0)) SFlowSequenceFirstEntry (s :: k) (ae_map e1) (ae_next e1) tg kp)
+                ((sp0, y0) :: te') y r SFlowSequenceFirstEntry s k e1 tg kp Hwx eq_refl Hme Hy Hbx Hn1) as (p1 & R1 & V1).
+    destruct (fs_entries ents HF' p1 ts' ttr trail spE (x :: rest) SFlowSequenceEntry s k _ tg kp Hw
+                 ltac:(rewrite V1; f_equal; symmetry; exact Ey) Hms Hmt Hb (env_after_pos _ _ Hn1)) as (p2 & R2 & V2).
+    exists p2. rewrite number_app, <- app_assoc, env_after_app. split; [|exact V2].
+    eapply run_cons; [exact Eq|]. eapply steps_app.
+    + apply run_steps. cbn [state_machine p_state set_state mkp].
+      eapply run_eq; [apply (fse_first sp0 y0 _ _ _ _ _ _ _ _ Hy0)|]. exact R1.
+    + apply run_steps. rewrite (sm_flow_sequence_entry p1 (view_state _ _ _ _ _ _ _ _ V1)). exact R2.
+Qed.
+
+(* ---------- flow mappings ---------- *)
+Lemma sm_flow_mapping_key q : p_state q = SFlowMappingKey -> state_machine q = flow_mapping_key q false.
+Proof. unfold state_machine. intros ->. reflexivity. Qed.
+Lemma sm_flow_mapping_value q : p_state q = SFlowMappingValue -> state_machine q = flow_mapping_value q false.
+Proof. unfold state_machine. intros ->. reflexivity. Qed.
+Lemma sm_flow_mapping_empty_value q : p_state q = SFlowMappingEmptyValue -> state_machine q = flow_mapping_value q true.
+Proof. unfold state_machine. intros ->. reflexivity. Qed.
+
+Definition fmk_inner (p : parser) (sp : span) : sres :=
+  do (t, p) <- peek p;
+  match t with
+  | (_, TKey) =>
+      let p := skip p in
+      do (t, p) <- peek p;
+      match t with
+      | (sp2, TValue) | (sp2, TFlowEntry) | (sp2, TFlowMappingEnd) => Ok ((empty_scalar, sp2), set_state p SFlowMappingValue)
+      | _ => parse_node (push_state p SFlowMappingValue) false false
+      end
+  | (sp2, TValue) => Ok ((empty_scalar, sp2), set_state p SFlowMappingValue)
+  | (_, TFlowMappingEnd) => do p <- pop_state p; Ok ((EMappingEnd, sp), skip p)
+  | _ => parse_node (push_state p SFlowMappingEmptyValue) false false
+  end.
+
+Lemma fmk_next p spF u st k a n tg kp :
+  view p = mkv ((spF, TFlowEntry) :: u) st k a n tg kp ->
+  flow_mapping_key p false = fmk_inner (mkp u None st k a n tg kp) spF.
+Proof. intros Hv. unfold flow_mapping_key, fmk_inner. vpeek Hv. reflexivity. Qed.
+
+Lemma fmk_first spx x u t0 S K a n tg kp : x <> TFlowMappingEnd ->
+  flow_mapping_key (mkp ((spx, x) :: u) (Some t0) S K a n tg kp) true = fmk_inner (mkp u (Some (spx, x)) S K a n tg kp) spx.
+Proof. intros Hx. destruct x; try congruence; reflexivity. Qed.
+
+Definition fen_fme (x : tok) : bool := match x with TFlowEntry | TFlowMappingEnd => true | _ => false end.
+Lemma fen_fme_follow x : fen_fme x = true -> follow x = true.
+Proof. destruct x; cbn; congruence. Qed.
+
+Lemma fm_value vt vn : NodeSpec vn -> forall p tvv tv y r st s k e tg kp,
+  is_none vn || wf false false vn = true ->
+  vt || is_none vn = true ->
+  view p = mkv (tvv ++ tv ++ y :: r) st (s :: k) (ae_map e) (ae_next e) tg kp ->
+  map snd tvv = flag vt TValue -> map snd tv = tokens_of vn ->
+  fen_fme (snd y) = true ->
+  bound tg e (pre_events vn) = true -> (0 < ae_next e)%N ->
+  exists p1, run (flow_mapping_value p false) (number tg e (pre_events vn)) p1 /\
+     view p1 = mkv (y :: r) SFlowMappingKey (s :: k) (ae_map (env_after e (pre_events vn)))
+                   (ae_next (env_after e (pre_events vn))) tg kp.
+Proof.
+  intros Hx p tvv tv y r st s k e tg kp Hw Hvt Hv Hmv Hm Hy Hb Hn.
+  pose proof (fen_fme_follow _ Hy) as Hfy.
+  destruct vt.
+  - cbn in Hmv. apply map_snd_cons in Hmv as (spV & t2 & -> & Hmv). apply map_snd_nil in Hmv as ->. cbn [app] in Hv.
+    destruct (is_none vn) eqn:EN; cbn [orb] in Hw.
+    + destruct vn; try discriminate. cbn [tokens_of] in Hm. apply map_snd_nil in Hm as ->. cbn [app] in Hv.
+      destruct y as [spy ty]. cbn [snd] in Hy.
+      assert (Eq : flow_mapping_value p false =
+                   Ok ((empty_scalar, spV), mkp r (Some (spy, ty)) SFlowMappingKey (s :: k) (ae_map e) (ae_next e) tg kp))
+        by (unfold flow_mapping_value; vpeek Hv; cbn; destruct ty; try discriminate; reflexivity).
+      eexists. split; [eapply run_one; exact Eq | reflexivity].
+    + destruct (first_tok_spanned _ _ _ _ Hw Hm) as (sp0 & y0 & tx' & -> & [S0 | [? _]]); [|discriminate].
+      cbn [app] in Hv.
+      assert (Eq : flow_mapping_value p false =
+                   parse_node (push_state (mkp (tx' ++ y :: r) (Some (sp0, y0)) st (s :: k) (ae_map e) (ae_next e) tg kp)
+                                          SFlowMappingKey) false false)
+        by (unfold flow_mapping_value; vpeek Hv; cbn; start_cases y0; reflexivity).
+      rewrite Eq.
+      match type of Eq with _ = parse_node ?q _ _ =>
+        apply (Hx false false q ((sp0, y0) :: tx') y r st SFlowMappingKey (s :: k) e tg kp Hw eq_refl Hm Hfy
+                  ltac:(discriminate) Hb Hn)
+      end.
+  - cbn [orb] in Hvt. destruct vn; try discriminate.
+    cbn in Hmv. apply map_snd_nil in Hmv as ->. cbn [tokens_of] in Hm. apply map_snd_nil in Hm as ->. cbn [app] in Hv.
+    destruct y as [spy ty]. cbn [snd] in Hy.
+    assert (Eq : flow_mapping_value p false =
+                 Ok ((empty_scalar, spy), mkp r (Some (spy, ty)) SFlowMappingKey (s :: k) (ae_map e) (ae_next e) tg kp))
+      by (unfold flow_mapping_value; vpeek Hv; destruct ty; try discriminate; reflexivity).
+    eexists. split; [eapply run_one; exact Eq | reflexivity].
+Qed.
+
+Lemma fm_entry kt kn vt vn : NodeSpec kn -> NodeSpec vn ->
+  forall q sp te y r st s k e tg kp,
+  fment_wf (wf false false) (kt, kn, (vt, vn)) = true ->
+  view q = mkv (te ++ y :: r) st (s :: k) (ae_map e) (ae_next e) tg kp ->
+  map snd te = ent_toks tokens_of (kt, kn, (vt, vn)) ->
+  fen_fme (snd y) = true ->
+  bound tg e (pre_events kn ++ pre_events vn) = true -> (0 < ae_next e)%N ->
+  exists p1, run (fmk_inner q sp) (number tg e (pre_events kn ++ pre_events vn)) p1 /\
+     view p1 = mkv (y :: r) SFlowMappingKey (s :: k) (ae_map (env_after e (pre_events kn ++ pre_events vn)))
+                   (ae_next (env_after e (pre_events kn ++ pre_events vn))) tg kp.
+Proof.
+  intros Hk Hvn q sp te y r st s k e tg kp Hw Hv Hm Hy Hb Hn.
+  pose proof (fen_fme_follow _ Hy) as Hfy.
+  cbn [fment_wf ent_toks] in Hw, Hm.
+  apply andb_prop in Hw as [Hw Hkt]. apply andb_prop in Hw as [Hw Hwv]. apply andb_prop in Hw as [Hvt Hwk].
+  apply map_snd_app in Hm as (tkk & t1 & -> & Hmkk & Hm).
+  apply map_snd_app in Hm as (tk & t2 & -> & Hmk & Hm).
+  apply map_snd_app in Hm as (tvv & tv & -> & Hmvv & Hmv).
+  rewrite <- !app_assoc in Hv.
+  rewrite bound_app in Hb. apply andb_prop in Hb as [Hbk Hbv].
+  rewrite number_app, env_after_app.
+  set (e1 := env_after e (pre_events kn)) in *.
+  assert (Hn1 : (0 < ae_next e1)%N) by (apply env_after_pos; exact Hn).
+  (* the token after the key *)
+  assert (Hyk : exists yk rk, tvv ++ tv ++ y :: r = yk :: rk /\ follow (snd yk) = true /\
+                              (snd yk = TValue \/ fen_fme (snd yk) = true) /\ (vt = true -> snd yk = TValue)).
+  { destruct vt; cbn in Hmvv.
+    - apply map_snd_cons in Hmvv as (spV & t3 & -> & _). cbn. do 2 eexists. split; [reflexivity|]. cbn. auto.
+    - apply map_snd_nil in Hmvv as ->. cbn [orb] in Hvt. destruct vn; try discriminate.
+      cbn [tokens_of] in Hmv. apply map_snd_nil in Hmv as ->. cbn. do 2 eexists. split; [reflexivity|].
+      split; [exact Hfy|]. split; [right; exact Hy|discriminate]. }
+  destruct Hyk as (yk & rk & Eyk & Hfyk & Hyk & Hyk2).
+  (* the value, from any parser in state FlowMappingValue *)
+  assert (Hval : forall p1, view p1 = mkv (tvv ++ tv ++ y :: r) SFlowMappingValue (s :: k) (ae_map e1) (ae_next e1) tg kp ->
+            exists p2, steps p1 (number tg e1 (pre_events vn)) p2 /\
+               view p2 = mkv (y :: r) SFlowMappingKey (s :: k) (ae_map (env_after e1 (pre_events vn)))
+                             (ae_next (env_after e1 (pre_events vn))) tg kp).
+  { intros p1 V1.
+    destruct (fm_value vt vn Hvn p1 tvv tv y r SFlowMappingValue s k e1 tg kp Hwv Hvt V1 Hmvv Hmv Hy Hbv Hn1) as (p2 & R2 & V2).
+    exists p2. split; [|exact V2]. apply run_steps.
+    rewrite (sm_flow_mapping_value p1 (view_state _ _ _ _ _ _ _ _ V1)). exact R2. }
+  destruct kt.
+  - (* Key token *)
+    cbn in Hmkk. apply map_snd_cons in Hmkk as (spK & t3 & -> & Hm3). apply map_snd_nil in Hm3 as ->. cbn [app] in Hv.
+    destruct (is_none kn) eqn:EN; cbn [orb] in Hwk.
+    + destruct kn; try discriminate. cbn [tokens_of] in Hmk. apply map_snd_nil in Hmk as ->. cbn [app] in Hv.
+      unfold token in *; rewrite Eyk in Hv. destruct yk as [spy ty]. cbn [snd] in Hyk.
+      assert (Eq : fmk_inner q sp =
+                   Ok ((empty_scalar, spy), mkp rk (Some (spy, ty)) SFlowMappingValue (s :: k) (ae_map e) (ae_next e) tg kp))
+        by (unfold fmk_inner; vpeek Hv; cbn; destruct Hyk as [-> | Hyk]; [reflexivity|]; destruct ty; try discriminate; reflexivity).
+      destruct (Hval (mkp rk (Some (spy, ty)) SFlowMappingValue (s :: k) (ae_map e) (ae_next e) tg kp)
+                  ltac:(rewrite Eyk; reflexivity)) as (p2 & R2 & V2).
+      exists p2. split; [|exact V2]. eapply run_cons; [exact Eq | exact R2].
+    + destruct (first_tok_spanned _ _ _ _ Hwk Hmk) as (sp0 & y0 & tk' & -> & [S0 | [? _]]); [|discriminate].
+      cbn [app] in Hv.
+      assert (Eq : fmk_inner q sp =
+                   parse_node (push_state (mkp (tk' ++ tvv ++ tv ++ y :: r) (Some (sp0, y0)) st (s :: k) (ae_map e) (ae_next e) tg kp)
+                                          SFlowMappingValue) false false)
+        by (unfold fmk_inner; vpeek Hv; cbn; start_cases y0; reflexivity).
+      match type of Eq with _ = parse_node ?q' _ _ =>
+        destruct (Hk false false q' ((sp0, y0) :: tk') yk rk st SFlowMappingValue (s :: k) e tg kp Hwk
+                     ltac:(cbn [view upcoming mkp push_state set_states p_token p_toks p_state p_states p_anchors p_anchor_id p_tags p_keep_tags app]; rewrite Eyk; reflexivity)
+                     Hmk Hfyk ltac:(discriminate) Hbk Hn) as (p1 & R1 & V1)
+      end.
+      destruct (Hval p1 ltac:(rewrite V1; f_equal; symmetry; exact Eyk)) as (p2 & R2 & V2).
+      exists p2. split; [|exact V2]. rewrite Eq. eapply run_app; [exact R1 | exact R2].
+  - cbn in Hmkk. apply map_snd_nil in Hmkk as ->. cbn [app orb] in Hv, Hkt.
+    destruct vt.
+    + (* Value token without a key *)
+      destruct kn; try discriminate. cbn [tokens_of] in Hmk. apply map_snd_nil in Hmk as ->. cbn [app] in Hv.
+      unfold token in *; rewrite Eyk in Hv. destruct yk as [spy ty]. cbn [snd] in Hyk2. rewrite (Hyk2 eq_refl) in *.
+      assert (Eq : fmk_inner q sp =
+                   Ok ((empty_scalar, spy), mkp rk (Some (spy, TValue)) SFlowMappingValue (s :: k) (ae_map e) (ae_next e) tg kp))
+        by (unfold fmk_inner; vpeek Hv; reflexivity).
+      destruct (Hval (mkp rk (Some (spy, TValue)) SFlowMappingValue (s :: k) (ae_map e) (ae_next e) tg kp)
+                  ltac:(rewrite Eyk; reflexivity)) as (p2 & R2 & V2).
+      exists p2. split; [|exact V2]. eapply run_cons; [exact Eq | exact R2].
+    + (* a bare node: key without value *)
+      destruct (is_none kn) eqn:EN; [discriminate|]. cbn [orb] in Hwk, Hvt. destruct vn; try discriminate.
+      cbn in Hmvv. apply map_snd_nil in Hmvv as ->. cbn [tokens_of] in Hmv. apply map_snd_nil in Hmv as ->. cbn [app] in Hv.
+      destruct (first_tok_spanned _ _ _ _ Hwk Hmk) as (sp0 & y0 & tk' & -> & [S0 | [? _]]); [|discriminate].
+      cbn [app] in Hv.
+      assert (Eq : fmk_inner q sp =
+                   parse_node (push_state (mkp (tk' ++ y :: r) (Some (sp0, y0)) st (s :: k) (ae_map e) (ae_next e) tg kp)
+                                          SFlowMappingEmptyValue) false false)
+        by (unfold fmk_inner; vpeek Hv; cbn; start_cases y0; reflexivity).
+      match type of Eq with _ = parse_node ?q' _ _ =>
+        destruct (Hk false false q' ((sp0, y0) :: tk') y r st SFlowMappingEmptyValue (s :: k) e tg kp Hwk eq_refl
+                     Hmk Hfy ltac:(discriminate) Hbk Hn) as (p1 & R1 & V1)
+      end.
+      destruct y as [spy ty].
+      exists (mkp r (Some (spy, ty)) SFlowMappingKey (s :: k) (ae_map e1) (ae_next e1) tg kp). split; [|reflexivity].
+      rewrite Eq. eapply run_app; [exact R1|].
+      cbn [pre_events number number1 pnull reg fst]. econstructor; [|constructor].
+      rewrite (sm_flow_mapping_empty_value p1 (view_state _ _ _ _ _ _ _ _ V1)).
+      unfold flow_mapping_value. vpeek V1. reflexivity.
 Qed.
